@@ -12,6 +12,7 @@ Inductive op :=
 | OpGet (f : string) (i : N)
 | OpWith (f : string) (i v : N)
 | OpSet (f : string) (i v : N)
+| OpBuild (args : list N)       (* builder().with_..(..)....build(): one value per element of every writable field, in order *)
 | OpRaw.
 
 (** outputs: a bit pattern, or -1 (panic), -2 (stuck: outside the fragment), -3 (no such accessor) *)
@@ -28,6 +29,21 @@ Fixpoint encode (v : value) : Z :=
 
 Definition out_of (r : res value) : Z :=
   match r with Ok v => encode v | Panic => zpanic | Stuck => zstuck end.
+
+(** the writes a complete builder chain performs *)
+Fixpoint plan (fs : list field) (args : list N) : list (field * N * N) :=
+  match fs with
+  | [] => []
+  | f :: fs' =>
+      if f_set f then
+        let k := N.to_nat (count f) in
+        (map (fun iv => (f, N.of_nat (fst iv), snd iv)) (combine (seq 0 k) (firstn k args))
+         ++ plan fs' (skipn k args))%list
+      else plan fs' args
+  end.
+
+Definition init_value (d : decl) : N :=
+  match d_default d with Some (DLit n) | Some (DConst _ n) => n | None => 0 end.
 
 Fixpoint find_field (name : string) (l : list field) : option field :=
   match l with
@@ -73,6 +89,23 @@ Definition step (raw : N) (o : op) : N * Z :=
           end
       | None => (raw, zmissing)
       end
+  | OpBuild args =>
+      let go := fix go (pl : list (field * N * N)) (x : N) : res N :=
+        match pl with
+        | [] => Ok x
+        | (f, i, v) :: pl' =>
+            match call (with_name f) x i (present (f_ty f) v) with
+            | Ok (VInt _ x') => go pl' x'
+            | Ok _ => Stuck
+            | Panic => Panic
+            | Stuck => Stuck
+            end
+        end in
+      match go (plan (d_fields d) args) (init_value d) with
+      | Ok raw' => (raw', do_raw raw')
+      | Panic => (raw, zpanic)
+      | Stuck => (raw, zstuck)
+      end
   | OpSet fname i v =>
       match find_field fname (d_fields d) with
       | Some f =>
@@ -117,6 +150,9 @@ Definition spec_step (x : N) (o : op) : N * Z :=
       | Some f => if i <? count f then let x' := spec_set f i v x in (x', Z.of_N x') else (x, zpanic)
       | None => (x, zmissing)
       end
+  | OpBuild args =>
+      let x' := fold_left (fun y '(f, i, v) => spec_set f i v y) (plan (d_fields d) args) (init_value d) in
+      (x', Z.of_N x')
   end.
 
 Fixpoint spec_run (x : N) (ops : list op) : list Z :=
